@@ -10,25 +10,28 @@ struct Atom {
     RCP<const Boolean> f;
     bool t;
 };
-static Atom atom(const std::string &tag, const RCP<const Basic> &x, const integer_class &xn, long B)
+static Atom atom(const std::string &tag, const RCP<const Basic> &x, const integer_class &xn, long B, unsigned kinds = 7)
 {
-    RCP<const Integer> c = sym_integer(nm(tag, "c"), -B, B);
+    if (kinds == 0) // quick tier: a fixed third atom
+        return {Lt(x, integer(0)), xn < 0};
+    long lo_ = verif_param("nonneg", 0) ? 0 : -B; // quick tier: constants in [0, B]
+    RCP<const Integer> c = sym_integer(nm(tag, "c"), lo_, B, verif_param("bv", 0));
     integer_class c2 = c->as_integer_class() * 2;
-    switch (verif_choice((tag + "_k").c_str(), 7)) {
+    switch (verif_choice((tag + "_k").c_str(), kinds)) {
         case 0: return {Lt(x, c), xn < c2};
         case 1: return {Le(x, c), xn <= c2};
         case 2: return {Eq(x, c), xn == c2};
         case 3: return {Ne(x, c), xn != c2};
         case 4: return {Gt(x, c), xn > c2};
         case 5: {
-            RCP<const Integer> d = sym_integer(nm(tag, "d"), -B, B);
+            RCP<const Integer> d = sym_integer(nm(tag, "d"), lo_, B, verif_param("bv", 0));
             verif_assume(c->as_integer_class() < d->as_integer_class());
             bool lo = verif_choice(nm(tag, "lo").c_str(), 2);
             integer_class d2 = d->as_integer_class() * 2;
             return {contains(x, interval(c, d, lo, false)), (lo ? xn > c2 : xn >= c2) && xn <= d2};
         }
         default: {
-            RCP<const Integer> d = sym_integer(nm(tag, "d"), -B, B);
+            RCP<const Integer> d = sym_integer(nm(tag, "d"), lo_, B, verif_param("bv", 0));
             return {contains(x, finiteset({c, d})), xn == c2 || xn == d->as_integer_class() * 2};
         }
     }
@@ -45,9 +48,9 @@ extern "C" void harness_c28_connectives()
 {
     long B = verif_param("B", 2);
     RCP<const Basic> x = symbol("x");
-    RCP<const Integer> xn = sym_integer("xn", -2 * B - 1, 2 * B + 1);
+    RCP<const Integer> xn = sym_integer("xn", verif_param("nonneg", 0) ? -1 : -2 * B - 1, 2 * B + 1, verif_param("bv", 0));
     RCP<const Number> xv = Rational::from_two_ints(*xn, *integer(2));
-    Atom a = atom("a", x, xn->as_integer_class(), B), b = atom("b", x, xn->as_integer_class(), B), c = atom("c", x, xn->as_integer_class(), B);
+    Atom a = atom("a", x, xn->as_integer_class(), B), b = atom("b", x, xn->as_integer_class(), B, (unsigned)verif_param("bkinds", 7)), c = atom("c", x, xn->as_integer_class(), B, (unsigned)verif_param("ckinds", 7));
     int op = (int)verif_choice("op", 10);
     RCP<const Boolean> f;
     bool t;
@@ -75,9 +78,9 @@ extern "C" void harness_c28_piecewise()
 {
     long B = verif_param("B", 2);
     RCP<const Basic> x = symbol("x");
-    RCP<const Integer> xn = sym_integer("xn", -2 * B - 1, 2 * B + 1);
+    RCP<const Integer> xn = sym_integer("xn", verif_param("nonneg", 0) ? -1 : -2 * B - 1, 2 * B + 1, verif_param("bv", 0));
     RCP<const Number> xv = Rational::from_two_ints(*xn, *integer(2));
-    Atom a = atom("a", x, xn->as_integer_class(), B), b = atom("b", x, xn->as_integer_class(), B);
+    Atom a = atom("a", x, xn->as_integer_class(), B), b = atom("b", x, xn->as_integer_class(), B, (unsigned)verif_param("bkinds", 7));
     RCP<const Basic> pw = piecewise({{integer(10), a.f}, {integer(20), b.f}, {integer(30), boolTrue}});
     map_basic_basic m;
     m[x] = xv;
